@@ -82,20 +82,17 @@ Theorem C06_auto_reply : forall (t : table) (pend : list str) (p : pkt),
   pending_hit pend p = false ->
   (forall j r, nth_error t j = Some r -> route_match r p = false) ->
   (forall a ns any, p = PIQ a ns any -> a_type a = s_get \/ a_type a = s_set ->
-     replies (fst (do_route t pend p)) = [err_reply a ns any]) /\
+     replies (fst (do_route t pend p)) = [err_reply a]) /\
   ((forall a ns any, p = PIQ a ns any -> a_type a <> s_get /\ a_type a <> s_set) ->
      replies (fst (do_route t pend p)) = []).
 Proof. exact auto_reply. Qed.
 
-Theorem C06_err_reply : forall (a : attrs) (ns : option str) (any : bool),
-  a_id (rp_attrs (err_reply a ns any)) = a_id a /\
-  a_from (rp_attrs (err_reply a ns any)) = a_to a /\
-  a_to (rp_attrs (err_reply a ns any)) = a_from a /\
-  a_type (rp_attrs (err_reply a ns any)) = s_error /\
-  rp_err (err_reply a ns any) =
-    Some {| e_code := 501%Z; e_type := s_cancel;
-            e_reason := s_feature_not_implemented; e_text := [] |} /\
-  rp_ns (err_reply a ns any) = ns /\ rp_any (err_reply a ns any) = any.
+Theorem C06_err_reply : forall a : attrs,
+  a_id (rp_attrs (err_reply a)) = a_id a /\
+  a_from (rp_attrs (err_reply a)) = a_to a /\
+  a_to (rp_attrs (err_reply a)) = a_from a /\
+  a_type (rp_attrs (err_reply a)) = s_error /\
+  rp_condition (err_reply a) = Some s_feature_not_implemented.
 Proof. exact err_reply_fields. Qed.
 
 (* a packet that some route handles gets no reply from the router itself *)
@@ -131,7 +128,7 @@ Example C06_example :
   route_pkt t [] (PIQ (a s_get) (Some disco) false) = (Some 0%nat, []) /\
   route_pkt t [] (PMessage (a [])) = (Some 1%nat, []) /\
   route_pkt t [] (PPresence (a [])) = (Some 2%nat, []) /\
-  route_pkt (firstn 2 t) [] (PIQ (a s_set) None true) = (None, [err_reply (a s_set) None true]) /\
+  route_pkt (firstn 2 t) [] (PIQ (a s_set) None true) = (None, [err_reply (a s_set)]) /\
   route_pkt (firstn 2 t) [] (PIQ (a s_error) None false) = (None, []) /\
   route_pkt (firstn 2 t) [] (POther 0) = (None, []) /\
   do_route t [[50]; [49]] (PIQ (a s_get) (Some disco) false) = ([EDeliver (a s_get)], [[50]]).
